@@ -32,6 +32,8 @@ void shim_set_abort_jmp(jmp_buf *j);
 #define GUARD 64
 static ringbuf_t rb;
 static uint8_t *arena, *store;
+static size_t pre_guard;
+static bool init_differs;
 static size_t LEN;
 static uint64_t seedmix;
 
@@ -60,7 +62,10 @@ static void setup(size_t len, unsigned start)
 {
 	free(arena);
 	LEN = len;
+	static unsigned setup_no;
+	setup_no++;
 #ifdef RB_SHIM
+	pre_guard = 0;
 	arena = malloc(len + 2 * GUARD);
 	memset(arena, 0xA5, len + 2 * GUARD);
 	store = arena + GUARD;
@@ -68,23 +73,39 @@ static void setup(size_t len, unsigned start)
 	shim_guard_add(arena, GUARD);
 	shim_guard_add(store + len, GUARD);
 #else
-	arena = malloc(len); /* exactly sized: ASan red zones on both sides */
-	store = arena;
+	if (setup_no & 1) {
+		arena = malloc(len); /* exactly sized: ASan red zones on both sides */
+		store = arena;
+		pre_guard = 0;
+	} else {
+		/* storage that starts 8 bytes into its block (the static initialiser is handed an expression) */
+		arena = malloc(len + 8);
+		memset(arena, 0xA5, 8);
+		store = arena + 8;
+		pre_guard = 8;
+	}
 	memset(store, 0xA5, len);
 #endif
-	static unsigned setup_no;
-	if (++setup_no & 1) {
+	if (setup_no & 1) {
 		ringbuf_init(&rb, store, len);
 	} else {
-		/* the static initialiser must describe the same ring */
-		ringbuf_t tmp = RINGBUF_VAR_INIT(store, len);
+		/* the static initialiser must describe the same ring; its arguments are expressions of non-byte
+		 * pointer type and of lower precedence than a cast or a multiplication (macro hygiene) */
+		uint32_t *words = (uint32_t *)(store - 8);
+		size_t half = len / 2;
+		ringbuf_t tmp = RINGBUF_VAR_INIT(words + 2, half + (len - half));
 		memset(&rb, 0x5a, sizeof(rb));
 		memcpy(&rb, &tmp, sizeof(rb));
+		init_differs = rb.bufp != store || rb.buf_len != len;
+		if (init_differs)
+			viol("static-initialiser-differs", "RINGBUF_VAR_INIT(words + 2, a + b) gave bufp at offset %td and buf_len %zu, expected offset 0 and %zu",
+			     rb.bufp - store, rb.buf_len, len);
 	}
 	atomic_store(&rb.readi, start % len);
 	atomic_store(&rb.writei, start % len);
 	puts_ok = gets_ok = put_fail = get_empty = empty_true = 0;
-	failed = false;
+	failed = init_differs; /* do not exercise a ring that points at the wrong storage */
+	init_differs = false;
 	wrapped_w = wrapped_r = false;
 	vh_sb_reset(&evlog);
 }
@@ -182,6 +203,11 @@ static void final_checks(bool drained)
 			return;
 		}
 #endif
+	for (size_t i = 0; i < pre_guard; i++)
+		if (arena[i] != 0xA5) {
+			viol("guard-bytes-modified", "bytes in front of the ring's storage were modified");
+			return;
+		}
 	if (drained && gets_ok != puts_ok)
 		viol("bytes-lost-at-drain", "%" PRIu64 " bytes were put, %" PRIu64 " could be got before the ring reported empty", puts_ok, gets_ok);
 }
